@@ -23,8 +23,10 @@ TIdBad == IsEv("id") /\ Ev.ok = 0 /\ LookId /\ st' = "LookId" /\ pos' > pos /\ l
 TYield == IsEv("data") /\ Ev.res = "yield" /\ LookData /\ Len(yielded') = Len(yielded) + 1 /\ cur = Ev.rec + 1 /\ l' = l + 1
 TDrop == IsEv("data") /\ Ev.res # "yield" /\ LookData /\ yielded' = yielded /\ pos' = pos + 1 /\ l' = l + 1
 TFar == IsEv("far") /\ LookData /\ pos' = pos /\ l' = l + 1
-\* unreported: the scan that runs off the end of the track (LookId finding nothing; LookData with no mark left at all)
-TSilent == /\ ((LookId /\ st' = "Done") \/ (LookData /\ pos' = pos /\ ~(\E i \in pos..N : ~IsId(i) /\ Recognisable(i))))
+\* unreported: once no data mark is left on the track the code's scan for one runs off the end and the decoder stops without
+\* looking at anything else; the model may still walk over the remaining ID fields -- none of that can yield a sector
+NoDataLeft == ~(\E i \in pos..N : ~IsId(i) /\ Recognisable(i))
+TSilent == /\ ((LookId /\ st' = "Done") \/ (NoDataLeft /\ (LookId \/ LookData) /\ yielded' = yielded))
            /\ l' = l
 TNext == TCase \/ TEnd \/ TIdOk \/ TIdBad \/ TYield \/ TDrop \/ TFar \/ TSilent
 TSpec == TInit /\ [][TNext]_tvars
